@@ -21,7 +21,9 @@ type qOracle struct {
 	insSeq   map[string]int
 	seq      int
 	depthOff bool
-	labels   map[string]bool
+	// dead messages whose id was enqueued again in the current step (removed by the dlq depth prune first)
+	depthReplaced []Msg
+	labels        map[string]bool
 	// counters for non-trivial rules
 	stateChanging int
 	failedOps     int
@@ -206,7 +208,12 @@ func (o *qOracle) validate(step int, prev, next Snap, r resolvedOp, res QRes) *v
 	}
 
 	// Everything not explained by the op's primary effect must be a legal side effect.
-	var depthRemoved []Msg
+	depthRemoved := append([]Msg(nil), o.depthReplaced...)
+	depthGone := map[string]bool{}
+	for _, m := range o.depthReplaced {
+		depthGone[m.ID] = true
+	}
+	o.depthReplaced = nil
 	for _, id := range unionIDs(prev, next) {
 		if explained[id] {
 			continue
@@ -234,7 +241,7 @@ func (o *qOracle) validate(step int, prev, next Snap, r resolvedOp, res QRes) *v
 		o.label("pruned-by-dlq-depth")
 		var kept []Msg
 		for id, p := range prev {
-			if p.State != "dead" {
+			if p.State != "dead" || depthGone[id] {
 				continue
 			}
 			if _, still := next[id]; still {
@@ -426,7 +433,12 @@ func (o *qOracle) validateEnqueue(step int, prev, next Snap, r resolvedOp, res Q
 			}
 		}
 		var replaced *Msg
-		if p, was := prev[id]; was && o.side(p, nil, now) != sideOK {
+		if p, was := prev[id]; was && o.side(p, nil, now) == sideDepth {
+			// the old dead message may have been removed by the dlq depth prune before the insert;
+			// whether the depth rule really allowed that is judged with the other depth removals
+			o.depthReplaced = append(o.depthReplaced, p)
+			o.label("dlq-pruned-same-id")
+		} else if was && o.side(p, nil, now) != sideOK {
 			// legal only as "the old message was the drop_oldest victim, then the new one was stored"
 			if !(o.cfg.MaxDepth > 0 && o.cfg.Drop == "drop_oldest" && p.State == "queued") {
 				return fail("C02,C12", "overwrote-existing", step, "enqueue of existing id %s succeeded over %s", id, fmtMsg(p))
